@@ -70,8 +70,8 @@ def d1_lossless(ctx):
         loops = [st for st in ast.walk(sc.node) if isinstance(st, ast.For) and isinstance(st.iter, ast.Name)]
         first = [l for l in loops if l.iter.id == p1]
         second = [l for l in loops if l.iter.id == p2]
-        if not first or not second:
-            ctx.undecided(rule, sc, None, construct=f"{fname}:loops", detail="loops over both sources not found")
+        if not second:
+            ctx.undecided(rule, sc, None, construct=f"{fname}:loops", detail="loop over the second source not found")
             continue
         for lp in second:
             n_loops += 1
@@ -406,24 +406,43 @@ def d2_one_based(ctx):
     rule = "D2/T5-one-based-records"
     mod = ctx.need_module(RX)
     n_idx = 0
+    # record getters: module functions that return `<param>.variables[<param>]` (possibly after side-effect-only statements)
+    getters = {}
+    for g in mod.scope.children:
+        if not g.is_function() or g.kind != "function":
+            continue
+        gp = g.params()
+        rets_ = g.returns()
+        if len(rets_) != 1:
+            continue
+        rv = rets_[0]
+        if isinstance(rv, ast.Name):
+            defs_ = [st_.value for st_ in ast.walk(g.node) if isinstance(st_, ast.Assign) and isinstance(st_.targets[0], ast.Name) and st_.targets[0].id == rv.id]
+            rv = defs_[0] if len(defs_) == 1 else rv
+        if isinstance(rv, ast.Subscript) and isinstance(rv.value, ast.Attribute) and rv.value.attr == "variables" and isinstance(rv.value.value, ast.Name) \
+                and rv.value.value.id in gp and isinstance(rv.slice, ast.Name) and rv.slice.id in gp:
+            getters[g.name] = gp.index(rv.slice.id)
     for sc in mod.scope.children:
-        if not sc.is_function():
+        if not sc.is_function() or sc.name in getters:
             continue
         cfg = cfg_of(sc)
         for n in cfg.nodes:
             if n.kind != "stmt" or not isinstance(n.ast, ast.Assign):
                 continue
             v = n.ast.value
-            # record = ds.variables[key]     |   x = ds.variables['coordx'][:]
+            # record = ds.variables[key]     |   x = ds.variables['coordx'][:]     |   record = getter(ds, key)
             sub = None
+            key_expr = None
             for w in ast.walk(v):
                 if isinstance(w, ast.Subscript) and isinstance(w.value, ast.Attribute) and w.value.attr == "variables":
-                    sub = w
+                    sub, key_expr = w, w.slice
+                if isinstance(w, ast.Call) and isinstance(w.func, ast.Name) and w.func.id in getters and len(w.args) > getters[w.func.id]:
+                    sub, key_expr = w, w.args[getters[w.func.id]]
             if sub is None:
                 continue
             if any(isinstance(w, ast.Attribute) and w.value is sub for w in ast.walk(v)):
                 continue        # metadata attribute of the record (e.g. .elem_type), not its data
-            pref = _key_prefix(cfg, n, sub.slice)
+            pref = _key_prefix(cfg, n, key_expr)
             if pref is None:
                 continue
             kind = "index" if pref.startswith(INDEX_RECORDS) else "plain" if pref.startswith(PLAIN_RECORDS) else None
@@ -818,15 +837,14 @@ def d3_elevation(ctx):
         vn_ = vn_[0] if vn_ else "v"
         cols = [src(c).replace(f"{vn_}[", "v[") for c in jdef[0].ast.value.args[0].elts]
         conv = cols          # ['v[0] - v[2]', 'v[1] - v[2]']
+    # the interpolation matrix of the element-interior nodes: the three-column column_stack that the interior block derives from
     inter = []
+    interior_deps = closure_(vst[0].value.args[0].elts[2]) if len(vst) == 1 else set()
     for m in cfg.nodes:
-        if m.kind == "stmt" and isinstance(m.ast, ast.Assign) and isinstance(m.ast.value, ast.Call) and isinstance(m.ast.targets[0], ast.Name) \
-                and m.ast.targets[0].id == u.actual("interiorCoords") and f"{mp}.conns" in src(m.ast.value):
-            for nm in {x.id for x in ast.walk(m.ast.value) if isinstance(x, ast.Name)}:
-                ds = cfg.reaching(m, nm)
-                if len(ds) == 1 and ds[0].kind == "stmt" and isinstance(ds[0].ast, ast.Assign) and isinstance(ds[0].ast.value, ast.Call) \
-                        and (dotted(ds[0].ast.value.func) or "").endswith("column_stack") and len(ds[0].ast.value.args[0].elts) == 3:
-                    inter.append(ds[0])
+        if m.kind == "stmt" and isinstance(m.ast, ast.Assign) and isinstance(m.ast.targets[0], ast.Name) and isinstance(m.ast.value, ast.Call) \
+                and (dotted(m.ast.value.func) or "").endswith("column_stack") and m.ast.value.args and isinstance(m.ast.value.args[0], ast.Tuple) \
+                and len(m.ast.value.args[0].elts) == 3 and m.ast.targets[0].id in interior_deps:
+            inter.append(m)
     if conv is None or len(inter) != 1:
         ctx.undecided(rule, sc, None, construct="interior-map-convention", detail=f"affine map definitions not found (J: {conv}, interior: {len(inter)})")
     else:
